@@ -2,7 +2,7 @@
 (* Exhaustive configuration of Auth.tla: two connections, three keys (one with every role revoked), every payload of the class grammar
    (2 signatures x 2 kinds x 7 ages x relay-tag sequences x challenge-tag sequences), sequences of attempts and probes. *)
 EXTENDS Integers, Sequences, FiniteSets, TLC
-VARIABLES token, last
+VARIABLES token, roles, last
 RelaySeqs == {<<>>, <<"exact">>, <<"substring">>, <<"superstring">>, <<"foreign">>, <<"exact", "foreign">>, <<"foreign", "exact">>}
 ChalSeqs == {<<>>, <<"c1">>, <<"c2">>, <<"none">>, <<"c1", "none">>, <<"c2", "c1">>}
 Payloads == [signer : {"A", "B", "C"}, sig : {"ok", "bad"}, kind : {22242, 1}, age : {-601, -600, -599, 0, 599, 600, 601},
@@ -12,6 +12,7 @@ INSTANCE Auth WITH Conns <- {"c1", "c2"}, Keys <- {"A", "B", "C"}, RolesOf <- [A
 Next == \/ \E c \in {"c1", "c2"}, p \in Payloads, ok \in BOOLEAN : Auth(c, p, ok)
         \/ \E c \in {"c1", "c2"}, act \in {"save", "query"}, al \in BOOLEAN : Probe(c, act, al)
         \/ \E c \in {"c1", "c2"} : Close(c)
+        \/ \E k \in {"A", "B", "C"}, rs \in {{}, {"r"}, {"w"}} : SetRoles(k, rs)
 Spec == Init /\ [][Next]_vars
-View == token
+View == <<token, roles>>
 =============================================================================
